@@ -402,6 +402,88 @@ fn overlong_strategy(_t: Tier) -> BoxedStrategy<(ARecord, u16, u8, bool)> {
         .boxed()
 }
 
+/// small messages whose question name, owner name or RDATA name ends in a pointer outside the message, a pointer to
+/// itself, a two-step cycle or a reserved label type, under header words with and without TC / AA / RD: refused
+fn enum_bad_names(_t: Tier, shard: usize, n: usize, f: &mut dyn FnMut((u8, u8, u16, u8)) -> bool) {
+    let mut i = 0;
+    for place in 0..3u8 {
+        for kind in 0..7u8 {
+            for flags in [0x0000u16, 0x0200, 0x8400, 0x8600, 0x8180, 0x0300] {
+                for lead in 0..3u8 {
+                    i += 1;
+                    if mine(i, shard, n) && !f((place, kind, flags, lead)) {
+                        return;
+                    }
+                }
+            }
+        }
+    }
+}
+
+fn check_bad_name(input: &(u8, u8, u16, u8), case: &mut Case) -> Result<(), Fail> {
+    let (place, kind, flags, lead) = *input;
+    let mut m = vec![0x06, 0x06];
+    m.extend_from_slice(&flags.to_be_bytes());
+    m.extend_from_slice(&[0, 0, 0, 0, 0, 0, 0, 0]);
+    // a valid first question so that offsets below exist
+    m.extend_from_slice(&[1, b'q', 0, 0, 1, 0, 1]);
+    let mut qd = 1u16;
+    let mut an = 0u16;
+    let bad = |at: usize, total_hint: usize| -> Vec<u8> {
+        let mut v = Vec::new();
+        for _ in 0..lead {
+            v.extend_from_slice(&[1, b'x']);
+        }
+        let here = at + v.len();
+        match kind {
+            0 => v.extend_from_slice(&[0xc0 | ((total_hint + 40) >> 8) as u8, (total_hint + 40) as u8]), // beyond the end
+            1 => v.extend_from_slice(&[0xff, 0xff]),                                                      // far beyond
+            2 => v.extend_from_slice(&[0xc0 | (here >> 8) as u8, here as u8]),                            // itself
+            3 => v.extend_from_slice(&[0xc0 | (at >> 8) as u8, at as u8]),                                // its own first label (cycle when lead > 0, self otherwise)
+            4 => v.extend_from_slice(&[0x40, 0x00]),                                                      // reserved 01
+            5 => v.extend_from_slice(&[0x80, 0x0c]),                                                      // reserved 10
+            _ => v.extend_from_slice(&[64, b'y']),                                                        // label length 64
+        }
+        v
+    };
+    match place {
+        0 => {
+            let at = m.len();
+            m.extend(bad(at, at + 6));
+            m.extend_from_slice(&[0, 1, 0, 1]);
+            qd = 2;
+        }
+        1 => {
+            let at = m.len();
+            m.extend(bad(at, at + 16));
+            m.extend_from_slice(&[0, 1, 0, 1, 0, 0, 0, 1, 0, 4, 1, 2, 3, 4]);
+            an = 1;
+        }
+        _ => {
+            // CNAME whose target is the bad name
+            m.extend_from_slice(&[0xc0, 0x0c, 0, 5, 0, 1, 0, 0, 0, 1]);
+            let lenpos = m.len();
+            m.extend_from_slice(&[0, 0]);
+            let at = m.len();
+            let b = bad(at, at + 4);
+            m.extend(&b);
+            m[lenpos..lenpos + 2].copy_from_slice(&(b.len() as u16).to_be_bytes());
+            an = 1;
+        }
+    }
+    m[4..6].copy_from_slice(&qd.to_be_bytes());
+    m[6..8].copy_from_slice(&an.to_be_bytes());
+    case.nontrivial = true;
+    case.class(format!("kind{}", kind));
+    if let Ok(p) = parse(&m)? {
+        return Err(Fail::new(
+            "c06:in-packet-bad-name:accepted",
+            format!("a message (flags {:#06x}) whose {} name ends in {} was accepted with {} questions / {} answers: {}", flags, ["question", "owner", "CNAME target"][place as usize], ["a pointer beyond the message", "a pointer far beyond the message", "a pointer to itself", "a pointer to its own start", "reserved label type 01", "reserved label type 10", "a label length of 64"][kind as usize], p.questions.len(), p.answers.len(), hex(&m)),
+        ));
+    }
+    Ok(())
+}
+
 fn check_in_large(input: &(crate::gen::Sharing, Vec<u8>), case: &mut Case) -> Result<(), Fail> {
     let p = input.0.assemble();
     let opts = if input.1.is_empty() { EncOpts::compressed() } else { EncOpts::foreign(input.1.clone()) };
@@ -426,7 +508,7 @@ fn large_strategy(t: Tier) -> BoxedStrategy<(crate::gen::Sharing, Vec<u8>)> {
 pub fn def() -> CheckDef {
     CheckDef {
         id: "C06",
-        rule: "library name decoder (hook Name::verif_parse) vs an independent RFC 1035 4.1.4 decoder with a visited set: (1) bounded-exhaustive: every buffer of length <= 6 (7 thorough) over {00,01,02,03,04,05,3f,40,80,c0,ff,'a'} decoded at every start offset; (2) names of 250..=258 wire bytes from 5 label sizes, direct and through a pointer; (2b) chains of 0..4000 strictly backward pointer hops onto names of 0..127 labels, and every reserved-type octet 0x40..=0xBF with 0..260 bytes behind it; (3) random 'soups' of labels (1..4, 30..40, 61..63 bytes), terminators, pointers to earlier pieces, absolute pointers (into the prefix, forward, out of range) and reserved-type octets, decoded at every piece start; (4) through Packet::parse: every record type reference-encoded with foreign compression (pointers inside all RDATA names) followed by another record; the same for the types with embedded names when RDLENGTH exceeds the content by 1..3 octets (if the library accepts the surplus, the fields behind the names and the next record must be unaffected); a name of 256..330 wire octets placed in each RDATA name position of each such type (in full, or continued through a pointer into the question) must be refused; and suffix-sharing messages up to 64 KiB whose pointers reach offsets up to 16383, observed field by field. Oracle: library Ok => same labels and same resume offset, labels 1..=63, wire <= 255; reference error (cycle, out of range, reserved type, too long, truncated) => library Err; reference Ok with only backward pointers and <= 32 hops => library Ok. Non-trivial = the reference decode met a pointer, >= 2 labels or an error; evaluations count (buffer, offset) pairs",
+        rule: "library name decoder (hook Name::verif_parse) vs an independent RFC 1035 4.1.4 decoder with a visited set: (1) bounded-exhaustive: every buffer of length <= 6 (7 thorough) over {00,01,02,03,04,05,3f,40,80,c0,ff,'a'} decoded at every start offset; (2) names of 250..=258 wire bytes from 5 label sizes, direct and through a pointer; (2b) chains of 0..4000 strictly backward pointer hops onto names of 0..127 labels, and every reserved-type octet 0x40..=0xBF with 0..260 bytes behind it; (3) random 'soups' of labels (1..4, 30..40, 61..63 bytes), terminators, pointers to earlier pieces, absolute pointers (into the prefix, forward, out of range) and reserved-type octets, decoded at every piece start; (4) through Packet::parse: every record type reference-encoded with foreign compression (pointers inside all RDATA names) followed by another record; the same for the types with embedded names when RDLENGTH exceeds the content by 1..3 octets (if the library accepts the surplus, the fields behind the names and the next record must be unaffected); a name of 256..330 wire octets placed in each RDATA name position of each such type (in full, or continued through a pointer into the question) must be refused; small messages whose question / owner / CNAME-target name ends in a pointer beyond the message, to itself, in a cycle, in a reserved label type or a 64-octet label, under six header words (with and without TC), must be refused; and suffix-sharing messages up to 64 KiB whose pointers reach offsets up to 16383, observed field by field. Oracle: library Ok => same labels and same resume offset, labels 1..=63, wire <= 255; reference error (cycle, out of range, reserved type, too long, truncated) => library Err; reference Ok with only backward pointers and <= 32 hops => library Ok. Non-trivial = the reference decode met a pointer, >= 2 labels or an error; evaluations count (buffer, offset) pairs",
         assumptions: vec!["forward pointers and chains longer than 32 hops may be refused (no claim)"],
         sections: vec![
             Box::new(ReplayOnly { name: "fuzz-bytes", check: check_raw }),
@@ -437,6 +519,7 @@ pub fn def() -> CheckDef {
             Box::new(PropSection { name: "in-packet", rule: "names in question / owner / RDATA positions of every type", strategy: super::c10::parse_strategy, cases: (100_000, 1_500_000), check: check_in_packet }),
             Box::new(PropSection { name: "in-packet-surplus", rule: "names followed by fixed fields inside RDATA with surplus octets", strategy: surplus_strategy, cases: (60_000, 600_000), check: check_in_surplus }),
             Box::new(PropSection { name: "in-packet-overlong", rule: "names of 256..330 octets in every RDATA name position", strategy: overlong_strategy, cases: (40_000, 400_000), check: check_in_overlong }),
+            Box::new(EnumSection { name: "in-packet-bad-names", rule: "names ending in bad pointers / reserved types in every position under several header words", enumerate: enum_bad_names, check: check_bad_name, exhaustive: true }),
             Box::new(PropSection { name: "in-packet-large", rule: "pointers to offsets up to 16383 in large messages", strategy: large_strategy, cases: (30_000, 300_000), check: check_in_large }),
             Box::new(PropSection { name: "soups", rule: "random name soups", strategy: soup_strategy, cases: (300_000, 4_000_000), check: check_soup }),
         ],
